@@ -343,7 +343,7 @@ TYPE_POSITIONS = [
     ("variable", "%s v;", lambda m: m.content[0].ctype),
     ("template argument of an argument", "void f(std::map<int, %s> a);", lambda m: m.content[0].args.list()[0].ctype.template_params[1]),
 ]
-NTP = len(TYPE_POSITIONS)
+NTPOS = len(TYPE_POSITIONS)
 
 
 def a_leaf(code):
@@ -370,13 +370,13 @@ def a_allowed(ty, position):
     return all(a_allowed(a, "") for a in args)
 
 
-def _check_type_everywhere(ty, npos=NTP, first=0):
+def _check_type_everywhere(ty, npos=NTPOS, first=0):
     """in `npos` of the type positions, starting at position `first` and stepping so that they spread over the list"""
     from harness.project import p_type
     want = x_type(ty)
-    step = max(1, NTP // npos)
+    step = max(1, NTPOS // npos)
     for i in range(npos):
-        label, tpl, getter = TYPE_POSITIONS[(first + i * step) % NTP]
+        label, tpl, getter = TYPE_POSITIONS[(first + i * step) % NTPOS]
         if not a_allowed(ty, label):
             continue
         text = tpl % itext(ty)
@@ -396,7 +396,7 @@ def c01_all_types(kind: int, r: int, a: int, b: int) -> bool:
     or two leaves as arguments — written in 11 type positions (argument, defaulted argument, return, pair member, method /
     static / constructor, property, variable, nested template argument): the tree holds exactly that type.
     pre: 0 <= kind <= 2 and 0 <= r < NA_ROOT and 0 <= a < NA_LEAF and 0 <= b < len(A_BREPS)
-    pre: kind == 0 or (kind == 1 and (THOROUGH or r % 4 == a % 4)) or (kind == 2 and r % (2 if THOROUGH else 8) == a % (2 if THOROUGH else 8))
+    pre: kind == 0 or (kind == 1 and (THOROUGH or r % 4 == a % 4)) or (kind == 2 and r % (2 if THOROUGH else 16) == a % (2 if THOROUGH else 16))
     post: _
     """
     kind, a = pick(kind, 0, 3), pick(a, 0, NA_LEAF)
@@ -407,7 +407,7 @@ def c01_all_types(kind: int, r: int, a: int, b: int) -> bool:
         r = pick(r, 0, NA_ROOT)
         if kind == 1:
             with concrete():
-                ok = _check_type_everywhere(a_root(r, [a_leaf(a)]), NTP if THOROUGH else 3, a + r)
+                ok = _check_type_everywhere(a_root(r, [a_leaf(a)]), NTPOS if THOROUGH else 3, a + r)
         else:
             b = pick(b, 0, len(A_BREPS)) if THOROUGH else (a + r) % len(A_BREPS)
             with concrete():
@@ -511,8 +511,8 @@ def conds(tier):
                     NTY, ND, " x %d second types (return / template header / arity / depth derived)" % NTY if not q else " (other choices derived)")),
         xh.Cond(M, "c01_class", t(300, 3000), kind=sb, examples=["k1=6, k2=4, t0=3, d0=2, r=1, base=3, virt=1, tp=2, nsdepth=1", "k1=11, k2=13, t0=9, d0=5, r=7, base=4, virt=0, tp=4, nsdepth=2"],
                 bounds="%d x %d member-kind pairs%s" % (NMK, NMK, " x %d member types (defaults / bases derived)" % NTY if not q else " (types / defaults / bases derived)")),
-        xh.Cond(M, "c01_all_types", t(420, 1800), kind=sb, examples=["kind=0, r=0, a=43, b=0", "kind=1, r=11, a=35, b=0", "kind=2, r=47, a=127, b=3", "kind=1, r=3, a=3, b=0"],
-                bounds="every type expression of a small algebra (128 leaves in all 11 type positions; 48 templated roots with 1-2 leaf arguments: %s)" % ("one argument: all roots x leaves x 11 positions; two arguments: every second (root, leaf) pair x 6 second arguments x 4 positions" if not q else "each root with every fourth (one argument) / eighth (two arguments) leaf, second argument derived, 3 of the 11 positions each, rotating")),
+        xh.Cond(M, "c01_all_types", t(600, 2400), kind=sb, examples=["kind=0, r=0, a=43, b=0", "kind=1, r=11, a=35, b=0", "kind=2, r=47, a=127, b=3", "kind=1, r=3, a=3, b=0"],
+                bounds="every type expression of a small algebra (128 leaves in all 11 type positions; 48 templated roots with 1-2 leaf arguments: %s)" % ("one argument: all roots x leaves x 11 positions; two arguments: every second (root, leaf) pair x 6 second arguments x 4 positions" if not q else "each root with every fourth (one argument) / sixteenth (two arguments) leaf, second argument derived, 3 of the 11 positions each, rotating")),
         xh.Cond(M, "c01_keyword_identifiers", t(300, 900), kind=sb, examples=["pos=0, kw=3, form=0", "pos=7, kw=0, form=0", "pos=20, kw=5, form=0"],
                 bounds="%d identifier positions x %d reserved words of the live grammar x %d ways of extending them into an identifier" % (NPOS, NKW, NFORM)),
         xh.Cond(M, "c01_toplevel", t(300, 3000), kind=sb, examples=["ka=2, kb=9, kc=4, t0=7, d0=3, nsdepth=2", "ka=3, kb=10, kc=8, t0=1, d0=1, nsdepth=3"],
